@@ -21,12 +21,14 @@ package keeper
 
 //@ func Keeper.IsStream(ctx, receiverAddr, senderAddr) (ok)
 //@   props C10 C11 C12 C13
+//@   nopanic
 //@   requires 1 <= len(receiverAddr) && len(receiverAddr) <= 255 && 1 <= len(senderAddr) && len(senderAddr) <= 255
 //@   pure
 //@   ensures ok == strHas(str_store, bytesval(receiverAddr), bytesval(senderAddr))
 
 //@ func Keeper.GetStream(ctx, receiverAddr, senderAddr) (stream, found)
 //@   props C10 C11 C12 C13
+//@   nopanic
 //@   requires 1 <= len(receiverAddr) && len(receiverAddr) <= 255 && 1 <= len(senderAddr) && len(senderAddr) <= 255
 //@   pure
 //@   ensures found == strHas(str_store, bytesval(receiverAddr), bytesval(senderAddr))
@@ -34,6 +36,7 @@ package keeper
 
 //@ func Keeper.DeleteStream(ctx, receiverAddr, senderAddr)
 //@   props C10 C11 C12 C13
+//@   nopanic
 //@   requires 1 <= len(receiverAddr) && len(receiverAddr) <= 255 && 1 <= len(senderAddr) && len(senderAddr) <= 255
 //@   modifies str_store
 //@   ensures strHas(old(str_store), bytesval(receiverAddr), bytesval(senderAddr)) ==> str_store == strDel(old(str_store), bytesval(receiverAddr), bytesval(senderAddr))
@@ -41,6 +44,7 @@ package keeper
 
 //@ func Keeper.GetParams(ctx) (params)
 //@   props C10 C12 C16
+//@   nopanic
 //@   pure
 //@   ensures strParamsSet(str_store) ==> params == strParams(str_store)
 
@@ -315,7 +319,8 @@ package keeper
 
 // logging has no effect on module state
 //@ func Keeper.Logger(ctx) (l)
-//@   trusted the logger handle is not modelled; the method only derives a logger from the context
+//@   props C01
+//@   nopanic
 //@   pure
 
 // ================================================================ list queries (C20, C18): the callbacks handed to the SDK pagination
@@ -380,7 +385,7 @@ package keeper
 // (stated, not checked by the code): pairs are pairwise distinct; deposits are valid non-negative coins; times are
 // representable.
 //@ func Keeper.GetStreamModuleAccount(ctx) (r)
-//@   trusted returns the module account object from the account keeper; reads no stream state
+//@   props C10 C15
 //@   pure
 //@   ensures r != nil ==> bytesval(acctAddr(r)) == bytesval(modAddr("stream"))
 
